@@ -21,5 +21,12 @@ ENTRY = dict(
             "correspondence (default AsyncProtocol fed noise + strays + a run; expected count from the reader model `read`; that every frame the reader hands out is handled or contained without losing a consumer is C09.never_stalls / no_consumer_dies / delivered_exactly_once)",
         "re-synchronisation after noise": "theorem under noInner68 (C14.resync_partial); full statement refuted (F2, C14.resync_full_false)",
     },
+    public_routes={
+        "FrameReader.read() on a StreamReader (what DummyProtocol hands to the user: protocol.reader)": "driven + compared with the reader model and judged",
+        "AsyncProtocol.connection_established -> frame_producer": "driven + compared with the producer machine at every quiescent point (write faults, puts, foreign disconnect, end of stream / silence)",
+        "whole connection (producer + default 3 consumers) after noise": "driven (run's frames must reach the ecoMAX device)",
+        "on_connection_lost callbacks": "driven (announced at most once)",
+        "open_tcp_connection / open_serial_connection": "not driven here (C11)",
+    },
     assumptions=COMMON_ASSUME,
 )
